@@ -3,7 +3,7 @@
 From Coq Require Import List NArith Arith Bool Lia.
 From XmlRs Require Import Base.CPred Spec.XPathSyntax Model.Peg Model.XPathAst
   Model.ParseActionsXPath Model.XPathAstAbs Gen.GrammarXPathGen
-  Proofs.PegTermination Proofs.XPathParseProds Proofs.XPathParseExpr.
+  Proofs.PegTermination Proofs.XPathParseProds Proofs.XPathParseExpr Proofs.XPathParseSteps Proofs.XPathParseMain.
 Import ListNotations.
 
 (** the parser of XPath expressions terminates on every input (parser half of C06) *)
@@ -28,6 +28,20 @@ Lemma parse_spell_partial_operators_proof : forall (a : xexpr) (sp : spelling),
 Proof.
   intros a sp (Hwf & Heq & Hws) Hr.
   destruct (parse_spell_surface_rung1 (surface sp) (white sp) Hwf Hr Hws) as (e & Hp & Hab).
+  exists e. split; [exact Hp|]. rewrite Hab. exact Heq.
+Qed.
+
+Lemma parse_spell_surface_proof : forall (a : xexpr) (w : wtree),
+  wfb a = true -> no_fname_case a = true -> ws_ok w = true ->
+  exists e, parse_expr (spell_surface a w) = POk e [] /\ abs_or e = a.
+Proof. exact parse_spell_surface_all. Qed.
+
+Lemma parse_spell_proof : forall (a : xexpr) (sp : spelling),
+  ok_spelling a sp -> no_fname_case (surface sp) = true ->
+  exists e, parse_expr (spell a sp) = POk e [] /\ abs_or e ≈ a.
+Proof.
+  intros a sp (Hwf & Heq & Hws) Hr.
+  destruct (parse_spell_surface_all (surface sp) (white sp) Hwf Hr Hws) as (e & Hp & Hab).
   exists e. split; [exact Hp|]. rewrite Hab. exact Heq.
 Qed.
 
@@ -138,6 +152,26 @@ Example ex_spelling :
 Proof. vm_compute. reflexivity. Qed.
 
 (** ** the known finding: function names that differ from a NodeType only in letter case *)
+(** an example with location paths, abbreviations, predicates and a filter expression:
+    the tree of   (//a/@id | b[position()=1]/..)[2]/child::text()  *)
+Definition ex_path : xexpr :=
+  XPath (SFrom (XFilter (XParen (XBin BUnion
+            (XPath (SAbs SDSlash) (XStep AOmit (TName (QN None [97])) []) [(SSlash, XStep AAt (TName (QN None [105;100])) [])])
+            (XPath SRel (XStep AOmit (TName (QN None [98])) [XBin BEq (XCall (QN None t_position) []) (XNum [49])]) [(SSlash, XDotDot)])))
+          [XNum [50]]) SSlash)
+        (XStep (AFull XChild) (TType KText) []) [].
+
+Example ex_path_hypotheses : wfb ex_path = true /\ no_fname_case ex_path = true.
+Proof. vm_compute. split; reflexivity. Qed.
+
+Example ex_path_spelling :
+  spell_surface ex_path (W false [] []) =
+  [40;47;47;97;47;64;105;100;124;98;91;112;111;115;105;116;105;111;110;40;41;61;49;93;47;46;46;41;91;50;93;47;99;104;105;108;100;58;58;116;101;120;116;40;41].
+Proof. vm_compute. reflexivity. Qed.
+
+Example ex_path_parses : exists e, parse_expr (spell_surface ex_path (W false [] [])) = POk e [] /\ abs_or e = ex_path.
+Proof. eexists. split; vm_compute; reflexivity. Qed.
+
 Definition KnownFnameCase (f : xqname) : bool := wf_fname f && negb (fname_case_ok f).
 
 Lemma fname_case_refuted_proof : exists f : xqname,
